@@ -2,7 +2,7 @@
    check_case: 0 ok, +1 the model disagrees with what the implementation did, +2 the observed
    behaviour violates the specification of that part of the property. *)
 From Coq Require Import List Arith Bool NArith ZArith Ascii String.
-From AV Require Import lib.Str model.C06_model.
+From AV Require Import lib.Str model.C06_model model.C06_unix.
 Import ListNotations.
 
 Inductive case :=
@@ -28,6 +28,9 @@ Inductive case :=
 | CIndexLK (len : N) (terminated : bool) (ook : bool) (olen : N)
 (* keepstore handleIndex with volumes whose IndexTo writes v_text and fails unless v_ok *)
 | CHandler (vols : list vol_out) (obody : string)
+(* GET /mounts/<uuid>/blocks?prefix=pfx answered by the real handler over a real Directory volume whose root holds
+   the entries ents (block directories, entries that cannot be opened or listed, other names) *)
+| CUnix (pfx : string) (ents : list uent) (obody : string)
 (* Balancer.Run with (at most) one failing request: PUTs received by the keepstores, Run returned nil? *)
 | CSweep (cfg : sweep_cfg) (failed : option req) (oputs : list put) (ook : bool).
 
@@ -118,6 +121,11 @@ Definition spec_b (c : case) : bool :=
     forallb v_ok vols ||
       (match parse_index obody with inl _ => true | inr _ => false end &&
        match get_index obody with None => true | Some _ => false end)
+  | CUnix pfx ents obody =>
+    (* a block directory could not be opened or listed to its end: both readers must reject the response *)
+    snd (unix_index pfx ents) ||
+      (match parse_index obody with inl _ => true | inr _ => false end &&
+       match get_index obody with None => true | Some _ => false end)
   | CSweep cfg failed oputs ook =>
     match failed with
     | None => true
@@ -167,6 +175,7 @@ Definition model_b (c : case) : bool :=
     | Some b => ook && N.eqb (nlen b) olen
     end
   | CHandler vols obody => String.eqb (handle_index vols) obody
+  | CUnix pfx ents obody => same_lines (unix_response pfx ents) obody
   | CSweep cfg failed oputs ook =>
     let '(puts, ok) := sweep cfg (fails_of failed) in
     puts_eqb (put_sort puts) (put_sort oputs) && Bool.eqb ok ook
